@@ -190,6 +190,8 @@ def run_tg_case(case):
             k = min(i for i, t in enumerate(spec["tiers"]) if s > t["maxT"])
             if any(spec["tiers"][k]["maxT"] < e[0] <= s for t in spec["tiers"][k + 1:] for e in t["entries"]):
                 classes.append("s_beyond_an_earlier_tier_and_after_entries_of_a_later_one")
+    if not spec["tiers"]:
+        classes.append("textgrid_without_tiers")
     classes = sorted(set(classes))
     return {"classes": classes, "nontrivial": bool({"straddler", "entry_starts_at_s", "point_at_s"} & set(classes))}
 
@@ -278,6 +280,8 @@ def tg_cases(draw):
     if draw(st.integers(0, 3)) == 0:
         spec["maxT"] = spec["maxT"] + 1.0  # a textgrid that is longer than its tiers
     s = draw(s_for([t["entries"] for t in spec["tiers"]], style, spec["minT"], spec["maxT"]))
+    if draw(st.integers(0, 11)) == 0:
+        spec = dict(spec, tiers=[])  # a textgrid with a span and no tier (yet): its span still grows by d
     return {"tg": spec, "s": s, "d": draw(durations(style)), "mode": draw(st.sampled_from(MODES))}
 
 
